@@ -459,8 +459,13 @@ int64_t cmi_pool_acquire_inner(struct cmb_resourcepool *rpp,
                 const bool found = cmi_process_remove_holdable(victim, hrp);
                 cmb_assert_debug(found == true);
 
-                /* Schedule a wakeup for it, but do not switch context yet */
-                cmb_process_interrupt(victim, CMB_PROCESS_PREEMPTED, victim->priority);
+                /* Schedule a wakeup for it, but do not switch context yet. Take
+                 * it out of whatever it is waiting for right away (it may be
+                 * part-way through an acquisition from this very pool with a
+                 * grant or a timer about to resume it), and make the
+                 * notification the first thing that happens to it. */
+                cmi_process_cancel_awaiteds(victim);
+                cmb_process_interrupt(victim, CMB_PROCESS_PREEMPTED, INT64_MAX);
 
                  /* Split the loot */
                 if (loot < rem_claim) {
@@ -517,7 +522,13 @@ int64_t cmi_pool_acquire_inner(struct cmb_resourcepool *rpp,
             cmb_logger_info(stdout,
                             "Interrupted by signal %" PRId64 ", returning unchanged",
                             sig);
-            if (initially_held > 0u) {
+            const uint64_t has_now = cmb_resourcepool_held_by_process(rpp, caller);
+            if (has_now <= initially_held) {
+                /* Nothing gained during this call (or everything taken from us
+                 * by a preemption whose notification was overtaken by this
+                 * signal), nothing to put back */
+            }
+            else if (initially_held > 0u) {
                 /* Put back the difference. It had some, there should be a record */
                 const uint64_t surplus = reset_holder(hhp, caller, initially_held);
                 rpp->in_use -= surplus;
